@@ -436,6 +436,21 @@ def rule_surfall(run):
     key = 'mulgrid.default_surface :: all columns default'
     calls = [c for c in ast.walk(fi.node) if isinstance(c, ast.Call) and isinstance(c.func, ast.Name) and c.func.id in ('all', 'any')
              and any(isinstance(x, ast.Attribute) and x.attr == 'default_surface' for x in ast.walk(c))]
+    if not calls and any(isinstance(x, ast.Attribute) and x.attr == 'default_surface' for x in ast.walk(fi.node)):
+        # the explicit form: a loop that returns a constant at the first flag of one truth value and the other constant after it
+        loops = [n for n in fi.node.body if isinstance(n, ast.For)]
+        last = fi.node.body[-1]
+        if len(loops) == 1 and len(loops[0].body) == 1 and isinstance(loops[0].body[0], ast.If) and not loops[0].body[0].orelse and \
+           len(loops[0].body[0].body) == 1 and isinstance(loops[0].body[0].body[0], ast.Return) and isinstance(loops[0].body[0].body[0].value, ast.Constant) and \
+           isinstance(last, ast.Return) and isinstance(last.value, ast.Constant) and not loops[0].orelse:
+            t = loops[0].body[0].test
+            neg = isinstance(t, ast.UnaryOp) and isinstance(t.op, ast.Not)
+            early, final = loops[0].body[0].body[0].value.value, last.value.value
+            if neg and early is False and final is True:
+                run.ok(key, 'loop: False at the first column without the flag, True otherwise', where=fi.where(loops[0])); return
+            if not neg and early is True and final is False:
+                run.violated(key, 'the loop returns True at the first column that has a default surface: write() then omits the whole surface '
+                             'section and the explicit surfaces of the other columns are lost on re-reading', where=fi.where(loops[0])); return
     if len(calls) != 1:
         run.unknown(key, 'reduction over the column flags not found', where=fi.where()); return
     c = calls[0]
